@@ -286,7 +286,21 @@ SIG = {
                                ('utxo_scripts', 'List (List Py.PyTok)'), ('amounts', 'List Int'), ('script_path', 'Bool'),
                                ('tapleaf_script', 'List Py.PyTok'), ('tapleaf_scripts', 'Py.PyScripts'), ('sighash', 'Int'), ('tweak', 'Bool')],
                               'Bytes'),
+    # hdwallet.py — the wrapper around the third-party hdwallet object: the object is an abstract state `S`, each library method a
+    # parameter that returns the new state; the wrapper's own logic is which methods it calls, in which order, with what
+    'hd_init': ('hdwallet.py', 'HDWallet.__init__',
+                [('S', 'Type'), ('new_wallet', 'Bool → S'), ('lib_from_mnemonic', 'S → String → Except PyErr S'),
+                 ('lib_from_xprivate_key', 'S → String → Except PyErr S'), ('lib_from_derivation', 'S → String → Except PyErr S'),
+                 ('is_mainnet', 'Bool'), ('xprivate_key', 'Option String'), ('path', 'Option String'), ('mnemonic', 'Option String')], 'S'),
+    'hd_from_path': ('hdwallet.py', 'HDWallet.from_path',
+                     [('S', 'Type'), ('lib_clean_derivation', 'S → S'), ('lib_from_derivation', 'S → String → Except PyErr S'),
+                      ('hdw', 'S'), ('path', 'String')], 'S'),
+    'hd_get_private_key': ('hdwallet.py', 'HDWallet.get_private_key',
+                           [('S', 'Type'), ('lib_wif', 'S → String'), ('hashlib_sha256', 'Bytes → Bytes'),
+                            ('b58decode', 'String → Except PyErr Bytes'), ('signingkey_from_string', 'Bytes → Except PyErr Int'),
+                            ('signingkey_from_secret_exponent', 'Int → Except PyErr Int'), ('wif_prefix', 'Bytes'), ('hdw', 'S')], 'Option Int'),
 }
+HDFUNS = {'hd_init', 'hd_from_path', 'hd_get_private_key'}
 # the public signing wrappers: methods called on the transaction object / on self -> generated functions
 MSGFUNS = {'pubkey_recover', 'pubkey_verify'}
 WRAPFUNS = {'pk_sign_input', 'pk_sign_segwit_input', 'pk_sign_taproot_input'}
@@ -2314,7 +2328,86 @@ class Tr:
                         s.fail(st, f'tuple target {x.id} changes kind')
         return out
 
+    def fn_hd(s, node, params, ret):
+        """hdwallet.py: `self.hdw` is threaded as a state; only calls of library methods on it, `if <optional str>:` tests and the final
+        hand-over to PrivateKey are allowed"""
+        ps = ' '.join(f'({p} : {t})' for p, t in params)
+        P = {p for p, _ in params}
+        opt = {p for p, t in params if t == 'Option String'}
+        out = []
+        def is_hdw(x): return (isinstance(x, ast.Attribute) and x.attr == 'hdw' and isinstance(x.value, ast.Name) and x.value.id == 'self')
+        def sarg(x):
+            if isinstance(x, ast.Name) and x.id in opt: return f'{x.id}_v'          # only used under `if x:` (checked below)
+            if isinstance(x, ast.Name) and x.id in P: return x.id
+            s.fail(x, 'argument of a library call')
+        def truthy(t):
+            if isinstance(t, ast.Name) and t.id in opt: return [t.id]
+            if isinstance(t, ast.BoolOp) and isinstance(t.op, ast.And) and all(isinstance(v, ast.Name) and v.id in opt for v in t.values):
+                return [v.id for v in t.values]
+            s.fail(t, 'condition')
+        def libcall(c, ind, guarded):
+            f = c.func
+            if not (isinstance(f, ast.Attribute) and is_hdw(f.value)): s.fail(c, 'call')
+            kw = {k.arg: k.value for k in c.keywords}
+            def need(x):
+                if isinstance(x, ast.Name) and x.id in opt and x.id not in guarded: s.fail(x, 'optional argument used outside `if <it>:`')
+                return sarg(x)
+            if f.attr == 'from_mnemonic' and not c.args and set(kw) == {'mnemonic'} and isinstance(kw['mnemonic'], ast.Call) \
+                    and getattr(kw['mnemonic'].func, 'id', '') == 'BIP39Mnemonic' and not kw['mnemonic'].args \
+                    and [k.arg for k in kw['mnemonic'].keywords] == ['mnemonic'] and 'lib_from_mnemonic' in P:
+                return [f'{ind}hdw ← lib_from_mnemonic hdw {need(kw["mnemonic"].keywords[0].value)}']
+            if f.attr == 'from_xprivate_key' and not c.args and set(kw) == {'xprivate_key'} and 'lib_from_xprivate_key' in P:
+                return [f'{ind}hdw ← lib_from_xprivate_key hdw {need(kw["xprivate_key"])}']
+            if f.attr == 'from_derivation' and len(c.args) == 1 and not kw and isinstance(c.args[0], ast.Call) \
+                    and getattr(c.args[0].func, 'id', '') == 'CustomDerivation' and len(c.args[0].args) == 1 and not c.args[0].keywords \
+                    and 'lib_from_derivation' in P:
+                return [f'{ind}hdw ← lib_from_derivation hdw {need(c.args[0].args[0])}']
+            if f.attr == 'clean_derivation' and not c.args and not kw and 'lib_clean_derivation' in P:
+                return [f'{ind}hdw := lib_clean_derivation hdw']
+            s.fail(c, 'library method')
+        def block(stmts, ind, guarded):
+            r = []
+            for st in stmts:
+                if isinstance(st, ast.Expr) and isinstance(st.value, ast.Constant): continue
+                if isinstance(st, ast.Expr) and isinstance(st.value, ast.Call): r += libcall(st.value, ind, guarded); continue
+                if isinstance(st, ast.If) and not st.orelse:
+                    names = truthy(st.test)
+                    pat = ', '.join(f'some {n_}_v' for n_ in names); scr = ', '.join(names)
+                    cond_ = ' && '.join(f'!(String.isEmpty {n_}_v)' for n_ in names)
+                    inner = block(st.body, ind + '    ', guarded | set(names))
+                    r += [f'{ind}match {scr} with', f'{ind}| {pat} =>', f'{ind}  if {cond_} then'] + inner + [f'{ind}| ' + ', '.join('_' for _ in names) + ' => pure ()']
+                    continue
+                if (isinstance(st, ast.Assign) and len(st.targets) == 1 and is_hdw(st.targets[0]) and isinstance(st.value, ast.Call)
+                        and getattr(st.value.func, 'id', '') == 'ext_HDWallet' and not st.value.args and 'new_wallet' in P):
+                    kw = {k.arg: k.value for k in st.value.keywords}
+                    net = kw.get('network')
+                    ok = (set(kw) == {'cryptocurrency', 'network', 'hd'} and getattr(kw['cryptocurrency'], 'id', '') == 'Bitcoin'
+                          and getattr(kw['hd'], 'id', '') == 'BIP32HD' and isinstance(net, ast.IfExp)
+                          and isinstance(net.body, ast.Constant) and net.body.value == 'mainnet'
+                          and isinstance(net.orelse, ast.Constant) and net.orelse.value == 'testnet'
+                          and isinstance(net.test, ast.Call) and getattr(net.test.func, 'id', '') == 'is_mainnet' and not net.test.args)
+                    if not ok: s.fail(st, 'construction of the library object')
+                    r += [f'{ind}let mut hdw : S := new_wallet is_mainnet']          # true: the library's mainnet, false: its testnet
+                    continue
+                if (isinstance(st, ast.Return) and isinstance(st.value, ast.Call) and getattr(st.value.func, 'id', '') == 'PrivateKey'
+                        and len(st.value.args) == 1 and not st.value.keywords and isinstance(st.value.args[0], ast.Call)
+                        and isinstance(st.value.args[0].func, ast.Attribute) and st.value.args[0].func.attr == 'wif'
+                        and is_hdw(st.value.args[0].func.value) and not st.value.args[0].args and 'lib_wif' in P):
+                    # PrivateKey(wif): the first positional parameter of the translated constructor
+                    d_ = find(ast.parse(open(f'{REPO}/bitcoinutils/keys.py').read()), 'PrivateKey.__init__')
+                    if [a_.arg for a_ in d_.args.args[1:2]] != ['wif']: s.fail(st, 'PrivateKey.__init__ no longer takes wif first')
+                    r += [f'{ind}let t1 ← privkey_init hashlib_sha256 b58decode signingkey_from_string signingkey_from_secret_exponent wif_prefix '
+                          f'(some (lib_wif hdw)) none none', f'{ind}return t1']
+                    continue
+                s.fail(st, 'statement of the wallet wrapper')
+            return r
+        body = block(node.body, '  ', set())
+        head = [] if s.name == 'hd_init' else ['  let mut hdw := hdw']
+        tail_ = [] if s.name == 'hd_get_private_key' else ['  return hdw']
+        return f'def {s.name} {ps} : Except PyErr ({ret}) := do\n' + '\n'.join(head + body + tail_) + '\n'
+
     def fn(s, node, params, ret):
+        if s.name in HDFUNS: return s.fn_hd(node, params, ret)
         s.ret = ret; s.bytesvars = {p for p, t in params if t == 'Bytes'}; s.boolvars = {p for p, t in params if t == 'Bool'}
         s.intlists = {p for p, t in params if t == 'List Int'}; s.charlists = {p for p, t in params if t == 'List Char'}
         s.declared = {p for p, _ in params}; s.selfalias = set(); s.params = {p for p, _ in params}
